@@ -30,12 +30,15 @@ var points [NumPoints]point
 // `every`-th arrival.
 func Point(id int) {
 	p := &points[id]
-	n := atomic.AddUint64(&p.count, 1)
+	var n uint64
+	if counting {
+		n = atomic.AddUint64(&p.count, 1)
+	}
 	a := atomic.LoadUint32(&p.action)
 	if a == ActNone {
 		return
 	}
-	if e := uint64(atomic.LoadUint32(&p.every)); e > 1 && n%e != 0 {
+	if e := uint64(atomic.LoadUint32(&p.every)); counting && e > 1 && n%e != 0 {
 		return
 	}
 	if a == ActYield {
